@@ -180,7 +180,7 @@ def run(c: Check):
     for i, diag in enumerate(diags):
         if diag:
             pairs = list(zip(diag[0::2], diag[1::2]))
-            c.violation("C01:cache-state-unsound" + identgen.selfmark_suffix(inv_cases[i]["desc"], pairs),
+            c.violation("C01:cache-state-unsound" + identgen.selfmark_suffix(inv_cases[i]["desc"], pairs, inv_cases[i]["export"]["nodes"]),
                         "the state of the built graph breaks the invariant of the cache theorems: " + identgen.diag_text(pairs),
                         dict(desc=inv_cases[i]["desc"], histories=[[]], diagnosis=pairs))
     c.level_assumptions = [
